@@ -42,6 +42,7 @@ def cases_for(ctx):
     cases.append({'behaviours': ['equal', 'dict_diff', 'equal', 'dict_diff', 'different'], 'dedicated': True, 'recycle': 2, 'keep': True, 'pair': 'D'})
     cases.append({'behaviours': ['equal', 'dict_diff', 'equal', 'dict_diff', 'different'], 'dedicated': False, 'recycle': 2, 'keep': True, 'pair': 'D'})
     cases.append({'behaviours': ['equal', 'different', 'equal', 'equal', 'different', 'equal', 'equal'], 'dedicated': True, 'recycle': 2, 'keep': False, 'slow_start': 0.4})
+    cases.append({'behaviours': ['equal', 'unpicklable_answer', 'different', 'unpicklable_answer', 'equal'], 'dedicated': True, 'recycle': 5, 'keep': True})
     if ctx.quick:
         return cases
     rng = ctx.rng
